@@ -699,6 +699,11 @@ TScan ==
                                   (S2.w[w].outs[k].tx = S2.w[w].txs[p[2]].id /\ S2.w[w].outs[k].acct = S2.w[w].txs[p[2]].acct
                                    /\ ~S2.w[w].outs[k].cb /\ OID(S2, w, k) \notin Utxo2) => S2.w[w].outs[k].st = "Reverted"),
                    "C18", "RevertedReportedAfterFaults", e, "scan")
+     /\ (~Ok(e) /\ aux.nodeUp /\ Len(e.res) > 4 /\ SubSeq(e.res, 1, 4) = "err:") =>
+          \* C16: "scanning ... repairs its output records and balances to the chain's truth" - a scan that FAILS with the
+          \* node reachable must leave nothing unrepaired (on the pinned tree scan never fails with the node up)
+          Check(ScanEqualsTruth(S2, w, Utxo2, e.del, Len(S2.chain)), "C16", "ScanEqualsTruth", e,
+                IF e.del THEN "scan fails:del" ELSE "scan fails:nodel")
      /\ IF ~CheckM THEN TRUE
         ELSE LET r == Scan(st, w, IF e.start < 0 THEN 1 ELSE e.start, e.del) IN
              /\ CheckMatch(Ok(e), e, "Scan:res")
